@@ -1839,6 +1839,20 @@ def install(eng):
     reg('sorted', b_sorted)
     reg('print', lambda e, *a, **k: None)
     reg('iter', lambda e, x: make_iter(e, x))
+
+    def b_next(e, it, *default):
+        it = make_iter(e, it)
+        if it.concrete is not None:
+            if it.concrete:
+                return it.concrete[0]
+            if default:
+                return default[0]
+            e.maybe_raise(False, 'StopIteration')
+        if default:
+            raise EngineError('next() with default on a symbolic iterator')
+        e.maybe_raise(_int(it.n) > 0, 'StopIteration')
+        return it.get(z3.IntVal(0))      # of a fresh iterator: its first element (for a set: an arbitrary member)
+    reg('next', b_next)
     reg('id', lambda e, x: id(x))
     # spec helpers (also usable by ghost code)
     reg('implies', lambda e, a, b: e.Or(e.Not(e.truth(a)), e.truth(b)))
